@@ -963,6 +963,14 @@ func c08Scenarios(tier string, r *rand.Rand) []c08Scenario {
 			Threads: []c08Thread{{Tid: 0, Pid: 1, Name: n, StartAt: c08ms(250), HoldFor: c08ms(13250)}, {Tid: 1, Name: n, StartAt: c08ms(500), HoldFor: c08ms(200), CancelAt: long}},
 			Horizon: c08ms(16000)})
 	}
+	if _, err := exec.LookPath("strace"); err == nil {
+		// storage slower still: one truncate -> write gap of 2.3 s is longer than the eight empty-read
+		// retries (8 x 250 ms): the waiter gives up on the live holder's empty file within ONE gap; the
+		// emptyCount fix cannot help here (known finding C08-write-gap-longer-than-retries)
+		scs = append(scs, c08Scenario{Name: "slow-truncate-gap-longer-than-retries", Class: "slow-storage-long-gap", Gap: c08ms(2300), Tol: c08ms(1200),
+			Threads: []c08Thread{{Tid: 0, Pid: 1, Name: n, StartAt: c08ms(250), HoldFor: c08ms(8500)}, {Tid: 1, Name: n, StartAt: c08ms(500), HoldFor: c08ms(200), CancelAt: long}},
+			Horizon: c08ms(11000)})
+	}
 	if tier == "thorough" {
 		// holder killed at a random moment (kept away from its heartbeat instants); the waiter's
 		// poll phase is chosen so that the staleness instant falls between two polls
